@@ -172,5 +172,6 @@ pub fn run(e: &'static Engine) {
         }));
     }
     e.par(jobs);
+    super::common::extreme_parts(e, |c, _fam, o| check(c, o));
     e.set_exhaustive(true, "all 40 symbol sizes (x 4 levels); payloads and masks are sampled");
 }
